@@ -38,6 +38,7 @@ class FreshRhs:
         self.fault_exc = fault_exc
         self.autonomous = autonomous
         self.const = const
+        self.nan_at = None      # value fault: the call with this index returns NaN (no exception)
 
     def __call__(self, t, y, **kw):
         c = self.c
@@ -45,6 +46,15 @@ class FreshRhs:
         self.calls.append((t, y))
         if self.fault_at is not None and idx == self.fault_at:
             raise self.fault_exc if self.fault_exc is not None else InjectedFault("rhs call %d" % idx)
+        nonfinite_arg = any(isinstance(v, (float, np.floating)) and not np.isfinite(v) for v in [t] + list(flat(c, y)))
+        if (self.nan_at is not None and idx == self.nan_at) or nonfinite_arg:
+            # f(nan) = nan; the injected value fault models an rhs leaving its domain (sqrt/log of a negative number)
+            val = np.full(self.shape, np.nan) if self.shape else float("nan")
+            if c.symbolic and self.shape:
+                val = c.array([float("nan")] * self.n).reshape(self.shape)
+            self.values.append(val)
+            self.completed += 1
+            return val
         if self.mode == "const":
             outs = [self.const[j] for j in range(self.n)]
         else:
@@ -81,7 +91,7 @@ def patched(obj, name, value):
         setattr(obj, name, old)
 
 
-def verdict_root_stub(c, success="true", prec="zero", log=None, max_fail=2):
+def verdict_root_stub(c, success="true", prec="zero", log=None, max_fail=2, diverge_at=None):
     """contract stub for optimizer.nonlinear_roots: arbitrary root K, success per mode, prec >= 0.
     success: 'true' | 'false' | 'fork' ; prec: 'zero' | 'sym'.  max_fail bounds the number of solves that may come
     back failed (success False or prec >= tol) on forking paths (unwinding bound)."""
@@ -93,6 +103,16 @@ def verdict_root_stub(c, success="true", prec="zero", log=None, max_fail=2):
         state["n"] += 1
         shape = np.shape(x0)
         n = int(np.prod(shape)) if shape else 1
+        bad_guess = any(isinstance(v, (float, np.floating)) and not np.isfinite(v) for v in flat(c, x0))
+        if bad_guess or (diverge_at is not None and i == diverge_at):
+            # the iteration diverged (diverge_at), or it was started from a non-finite guess: like the real solver, a non-finite
+            # "root" comes back with success False
+            root = np.full(shape, np.nan)
+            if c.symbolic:
+                root = c.array([float("nan")] * n).reshape(shape)
+            if log is not None:
+                log.append(dict(i=i, success=False, prec=float("nan"), tol=tol, root=root, diverged=True, bad_guess=bad_guess))
+            return root, (False, 0, 0, 0, float("nan"))
         K = c.uf("Kroot", [], n, fresh=True)
         root = c.array(K).reshape(shape)
         exhausted = state["fails"] >= max_fail
